@@ -524,6 +524,36 @@ func checkTimeString(w *World, r *Result) {
 		return true
 	})
 	if lit == "" {
+		// the other way to recognise time.Time: identity with the struct of the real time.Time. The reference must then
+		// be found independently of what the declaring package happens to import: (*types.Package).Imports() lists the
+		// DIRECT imports only, so a search of it misses `type Deadline clock.Stamp` declared in a package that reaches
+		// time only through clock.
+		identical, viaImports := false, ""
+		for _, cf := range calleeClosure(w, fi, 2) {
+			if cf.Pkg != fi.Pkg || cf.Decl.Body == nil {
+				continue
+			}
+			ci := cf.Pkg.TypesInfo
+			ast.Inspect(cf.Decl.Body, func(x ast.Node) bool {
+				switch v := x.(type) {
+				case *ast.CallExpr:
+					if fullName(calleeOf(ci, v)) == "go/types.Identical" {
+						identical = true
+					}
+				case *ast.RangeStmt:
+					if call, ok := ast.Unparen(v.X).(*ast.CallExpr); ok && fullName(calleeOf(ci, call)) == "(*go/types.Package).Imports" {
+						viaImports = w.Pos(v.Pos()) + " in " + cf.Name
+					}
+				}
+				return true
+			})
+		}
+		if identical {
+			r.cond(viaImports == "", "AGR-C12t", fi.Name, "time.Time recognised by identity with the real struct", fnPos(w, fi),
+				"the reference struct is not looked up among the direct imports of the declaring package",
+				"the struct of time.Time is looked up by scanning (*types.Package).Imports() at "+viaImports+", which lists direct imports only: a named type over a time-derived type of another package, declared in a package that does not import time itself, is no longer recognised as a time (it becomes a struct with the private fields wall, ext, loc, and time.Location leaks into the graph)")
+			return
+		}
 		Undecided("NewTime: the struct-text comparison was not found")
 	}
 	// time.Time in the loaded program
